@@ -66,16 +66,27 @@ def make_scene(d, rng):
                 X=images.sum(0) + noise, snr_db=snr_db)
 
 
+_ALIGNERS = {}
+
+
 def dhtv_for(pa, F, d):
+    """aligner objects live as long as the worker process and are reused for
+    every scene with the same configuration - the way a user processes many
+    utterances (results must not depend on that history, C20)"""
     if F == 257:
-        return pa.DHTVPermutationAlignment.from_stft_size(512), 'default-512'
+        name = 'default-512'
+        if name not in _ALIGNERS:
+            _ALIGNERS[name] = pa.DHTVPermutationAlignment.from_stft_size(512)
+        return _ALIGNERS[name], name
     width = {33: 12, 65: 24}[F]
     shift = width // 6    # keeps >= 2/3 overlap also for the stretched ends
     start = d.choice([F // 4, F // 3])
-    return pa.DHTVPermutationAlignment(
-        stft_size=2 * (F - 1), segment_start=start, segment_width=width,
-        segment_shift=shift, main_iterations=20, sub_iterations=2), \
-        f'custom-{start}-{width}-{shift}'
+    name = f'custom-{F}-{start}-{width}-{shift}'
+    if name not in _ALIGNERS:
+        _ALIGNERS[name] = pa.DHTVPermutationAlignment(
+            stft_size=2 * (F - 1), segment_start=start, segment_width=width,
+            segment_shift=shift, main_iterations=20, sub_iterations=2)
+    return _ALIGNERS[name], name
 
 
 def draw_field(d, rng, K, F, first):
